@@ -26,7 +26,7 @@ CONFIG = {
     'quick': {'shards': 16, 'cases': 4, 'timeout': 900, 'floor': 20},
     'thorough': {'shards': 32, 'cases': 250, 'timeout': 5400, 'floor': 2500},
 }
-REQUIRED = ['contract_weighted_var', 'contract_rvs', 'contract_logpdf', 'contract_weighted_sample_quantile', 'populations_checked', 'weights_compared', 'cov_compared', 'threshold_user', 'threshold_quantile', 'continued_runs', 'continued_runs_other_form',
+REQUIRED = ['contract_weighted_var', 'contract_rvs', 'contract_logpdf', 'contract_weighted_sample_quantile', 'populations_checked', 'weights_compared', 'cov_compared', 'threshold_user', 'threshold_quantile', 'continued_runs', 'continued_runs_other_form', 'threshold_exactly_zero',
             'prior_hier', 'prior_bounded', 'prior_unbounded', 'n_sim_checked']
 
 
@@ -34,7 +34,11 @@ def gen_cases(ctx):
     rng = ctx.rng
     made = 0
     while made < ctx.ncases:
-        spec = models.gen_spec(rng, flavours=('cont', 'cont', 'quant'))
+        spec = models.gen_spec(rng, flavours=('cont', 'cont', 'quant', 'quant'))
+        want_zero = (made == 0)          # every shard drives at least one exact-match (threshold 0) schedule
+        if want_zero:
+            spec['disc']['flavour'] = 'quant'
+            spec['disc']['levels'] = 2.0
         seed = int(rng.integers(0, 2 ** 31 - 1))
         m = models.build(spec, name='pilot')
         d = m.generate(400, outputs=['d'], seed=seed % 1000 + 3)['d']
@@ -45,8 +49,15 @@ def gen_cases(ctx):
         def q(p):
             return float(fin[int(p * len(fin))])
         R = int(rng.integers(2, 6))
-        if rng.random() < 0.5:
+        zero_thr = False
+        if want_zero and float(np.mean(fin == 0.0)) < 0.04:
+            continue
+        if want_zero or rng.random() < 0.5:
             kw = {'thresholds': [q(p) for p in [0.6, 0.4, 0.25, 0.15, 0.1][:R]]}
+            if spec['disc']['flavour'] == 'quant' and float(np.mean(fin == 0.0)) >= 0.04 and (want_zero or rng.random() < 0.7):
+                # exact-match ABC on a discrete discrepancy: the last threshold is exactly 0
+                kw['thresholds'][-1] = 0.0
+                zero_thr = True
         else:
             # the sampler retries for ever by design: keep the overall acceptance (product of quantiles) above ~2% and
             # use continuous discrepancies (a weighted quantile of tied values can sit on the lowest level)
@@ -62,7 +73,7 @@ def gen_cases(ctx):
             # continued sampling on the same sampler, in the same or in the other objective form
             same = rng.random() < 0.5
             if ('thresholds' in kw) == same:
-                case['cont'] = {'thresholds': [q(0.07)]}
+                case['cont'] = {'thresholds': [0.0 if zero_thr else q(0.07)]}
             else:
                 case['cont'] = {'quantiles': [0.5]}
         made += 1
@@ -147,6 +158,7 @@ def run_case(ctx, case):
         form, val = per_round[r]
         if form == 't':
             ctx.event('threshold_user')
+            ctx.event('threshold_exactly_zero', val == 0.0)
             if not np.all(dsc <= val):
                 raise Violation('above-threshold', 'round %d: max discrepancy %r above the user threshold %r' % (r, dsc.max(), val))
         elif r > 0:
